@@ -773,10 +773,10 @@ fn main() {
     let mut record_json = Vec::new();
     let mut files = Vec::new();
     let chunk = if full { 12 } else { 4 };
-    let jb = pick(&jb_all, 10, &mut rng);
+    let jb = pick(&jb_all, 8, &mut rng);
     // the records with fewer than 5 coefficients are always included (rare arity)
     let mut dp: Vec<(String, Rec)> = dp_all.iter().filter(|(_, r)| matches!(r, Rec::D100(c) if c.len() != 5)).take(if full { 99 } else { 2 }).cloned().collect();
-    for x in pick(&dp_all, 10, &mut rng) {
+    for x in pick(&dp_all, 8, &mut rng) {
         if !dp.iter().any(|(n, _)| *n == x.0) {
             dp.push(x);
         }
@@ -831,14 +831,16 @@ fn main() {
 
     // ---------------- part C / D
     let only = cli.opt("--only");
-    let quick_cfgs = ["pr2", "pcsaft_propane", "pcsaft_propane_butane_kij", "pcsaft_water_methanol", "pcsaft_acetone_co2", "gcpcsaft_propanol_ethanol", "pets2", "saftvrmie_ethane"];
+    let quick_cfgs = ["pr2", "pcsaft_propane", "pcsaft_propane_butane_kij", "pcsaft_water_methanol", "pcsaft_co2_chlorine", "saftvrmie_ethane"];
     let cfgs: Vec<Config> = configs::all(full)
         .into_iter()
         .filter(|c| match &only {
             Some(o) => &c.name == o,
             None => full || quick_cfgs.contains(&c.name.as_str()),
         })
-        .filter(|c| !c.name.starts_with("uv_") && !c.name.starts_with("saftvrqmie") && !c.name.starts_with("epcsaft"))
+        // gc-PC-SAFT is left out: its parameter construction sums in HashMap order, so its values differ in the last bit from
+        // process to process (observed on the molar weight) and the run would not be bit-reproducible for a fixed seed
+        .filter(|c| !c.name.starts_with("uv_") && !c.name.starts_with("saftvrqmie") && !c.name.starts_with("epcsaft") && !c.name.starts_with("gcpcsaft"))
         .collect();
     let nstates = if full { 6 } else { 2 };
     let mut state_json = Vec::new();
